@@ -171,6 +171,11 @@ func handleJOIN(c *Client, e Event) {
 			return
 		}
 		user = c.state.lookupUser(e.Source.Name)
+	} else if e.Source.Ident != "" || e.Source.Host != "" {
+		// We may know the user from a NAMES reply only; the JOIN prefix is
+		// authoritative for their ident and host.
+		user.Ident = e.Source.Ident
+		user.Host = e.Source.Host
 	}
 
 	defer c.state.notify(c, UPDATE_STATE)
